@@ -54,7 +54,7 @@ pub fn run(ctx: Ctx) -> i32 {
     let zoo = load_zoo();
     let tier = ctx.tier;
     let (n_rand, n_mut) = tier.pick((12usize, 25usize), (300usize, 600usize));
-    let cfg = ValueCfg { big_weight: 0, max_big: 300, max_big_elems: 300, conformance: false, out_of_root: true, cap_open_types: true, hard_limit: None };
+    let cfg = ValueCfg { big_weight: 0, max_big: 300, max_big_elems: 300, conformance: false, out_of_root: true, cap_open_types: true, hard_limit: None, foreign_chars: false };
     let mut vectors: Vec<String> = Vec::new();
     for (ei, e) in zoo.entries.iter().enumerate() {
         let mut runner = ctx.runner("c19", ei as u64, 1);
